@@ -255,7 +255,7 @@ ML_MACROS = {
         "emits": lambda mv, p: [("ai.onnx.ml", "Scaler")],
     },
     "ml_binarizer": {
-        "np": lambda a, p: (a[0] > F32(0.25)).astype(F32),
+        "np": lambda a, p: (a[0] > F32(0.26)).astype(F32),
         "emits": lambda mv, p: [("ai.onnx.ml", "Binarizer")],
     },
 }
@@ -270,7 +270,7 @@ def build_ml(name, mv, dv, a):
     if name == "ml_scaler":
         return m.scaler(a[0], offset=[0.5], scale=[2.0])
     if name == "ml_binarizer":
-        return m.binarizer(a[0], threshold=0.25)
+        return m.binarizer(a[0], threshold=0.26)
     raise KeyError(name)
 
 
@@ -349,12 +349,21 @@ OLDX_BODIES = {
 # (lowest ai.onnx.ml version the node is valid at, node src -> dst); every one maps (2,3) float -> (2,3) float
 OLDX_ML = {
     "scaler": (1, lambda h, TP, s, d: [h.make_node("Scaler", [s], [d], domain="ai.onnx.ml", offset=[0.5], scale=[2.0])]),
-    "binarizer": (1, lambda h, TP, s, d: [h.make_node("Binarizer", [s], [d], domain="ai.onnx.ml", threshold=0.25)]),
+    "binarizer": (1, lambda h, TP, s, d: [h.make_node("Binarizer", [s], [d], domain="ai.onnx.ml", threshold=0.26)]),
     "norm": (1, lambda h, TP, s, d: [h.make_node("Normalizer", [s], [d], domain="ai.onnx.ml", norm="L1")]),
     "afe": (1, lambda h, TP, s, d: [_c64(h, TP, d + "_ix", [2, 0, 1]),
                                     h.make_node("ArrayFeatureExtractor", [s, d + "_ix"], [d], domain="ai.onnx.ml")]),
-    "le2": (2, lambda h, TP, s, d: [h.make_node("LabelEncoder", [s], [d], domain="ai.onnx.ml", keys_floats=[1.0, 2.0],
-                                                values_floats=[5.0, 6.0], default_float=-1.0)]),
+    # LabelEncoder compares floats exactly: its input is snapped to integers first, with the steps at
+    # values no computation here lands near ((k - 0.41) / 3.7), so that rounding differences between runtimes
+    # and the reference cannot flip a label
+    "le2": (2, lambda h, TP, s, d: [
+        h.make_node("Constant", [], [d + "_c1"], value=h.make_tensor(d + "_c1t", TP.FLOAT, [], [3.7])),
+        h.make_node("Mul", [s, d + "_c1"], [d + "_m"]),
+        h.make_node("Constant", [], [d + "_c2"], value=h.make_tensor(d + "_c2t", TP.FLOAT, [], [0.41])),
+        h.make_node("Add", [d + "_m", d + "_c2"], [d + "_a"]),
+        h.make_node("Floor", [d + "_a"], [d + "_f"]),
+        h.make_node("LabelEncoder", [d + "_f"], [d], domain="ai.onnx.ml", keys_floats=[0.0, 1.0, 2.0, 4.0, 7.0, -2.0],
+                    values_floats=[5.0, 6.0, 7.0, 8.0, 9.0, 4.0], default_float=-1.0)]),
     # LabelEncoder-1 (classes_strings): its form is NOT accepted from ai.onnx.ml 2 on and nothing converts it
     "le1": (1, lambda h, TP, s, d: [h.make_node("Cast", [s], [d + "_i"], to=TP.INT64),
                                     h.make_node("LabelEncoder", [d + "_i"], [d + "_s"], domain="ai.onnx.ml",
@@ -1179,6 +1188,23 @@ def func_twice_program(rng, idx=0):
         cur = st["id"]
     fdef = {"op": "func", "name": f"ftw{idx}_{next(_uid)}", "domain": rng.choice(["spox.verif", "verif.other"]),
             "params": params, "body": {"nodes": body_nodes, "out": cur}}
+    defs = [fdef]
+    if rng.random() < 0.3:
+        # a second function whose body applies the first one (twice, or once next to a convertible node): the inner
+        # function is then instantiated inside several instances of the outer one
+        op1 = g.fresh()
+        c1 = copy_json(fdef)
+        c1.update(id=g.fresh(), args=[op1] * np_)
+        mid = {"id": g.fresh(), "op": rng.choice(CONVERTIBLE), "mv": lo, "args": [c1["id"]], "p": {"axis": rng.randrange(2)}}
+        inner_nodes = [c1, mid]
+        out = mid["id"]
+        if rng.random() < 0.6:
+            c2 = copy_json(fdef)
+            c2.update(id=g.fresh(), args=[mid["id"]] * np_)
+            inner_nodes.append(c2)
+            out = c2["id"]
+        defs.append({"op": "func", "name": f"fout{idx}_{next(_uid)}", "domain": rng.choice(["spox.verif", "verif.other"]),
+                     "params": [op1], "body": {"nodes": inner_nodes, "out": out}})
     blk, _ = g.block(["x", "y"], set(), 0, g.size)
     nodes = list(blk["nodes"])
     taint = tainted_ids({"nodes": nodes, "outs": []})
@@ -1186,9 +1212,9 @@ def func_twice_program(rng, idx=0):
     tops = []
 
     def call(args_pool):
-        c = copy_json(fdef)
+        c = copy_json(defs[-1] if rng.random() < 0.7 else rng.choice(defs))
         c["id"] = g.fresh()
-        c["args"] = [rng.choice(args_pool) for _ in params]
+        c["args"] = [rng.choice(args_pool) for _ in c["params"]]
         return c
 
     n_calls = rng.choice([2, 2, 3, 4])
